@@ -87,7 +87,8 @@ namespace awkward {
         ContentPtr piece(nullptr);
         if (partitionid >= numpartitions()) {
           // only reachable for empty partitions requested after the data are used up
-          dst = partitions_[(size_t)(numpartitions() - 1)].get()->getitem_nothing();
+          // (an empty array of the same type; getitem_nothing() would be one of the items' type)
+          dst = partitions_[(size_t)(numpartitions() - 1)].get()->getitem_range_nowrap(0, 0);
           break;
         }
         ContentPtr src = partitions_[(size_t)partitionid];
